@@ -23,11 +23,18 @@ import (
 	"vharness/kit"
 )
 
-// negativeWait: "Pace never answers with a negative wait and stop=false" (valid parameters, elapsed >= 0):
-// a pacer either waits (>= 0) or stops; a negative duration is what a wrapped product looks like.
-// A wait of exactly MinInt64 is the wrapped float->int64 conversion (kind linear_overflow_wraps).
+// negativeWait: "arithmetic overflow stops the attack instead of wrapping" as far as it can be read off
+// the answer: a NEGATIVE wait with stop=false although the count is strictly AHEAD of the schedule.
+// (The text does not fix waits: a negative or zero wait while the count is on or behind the schedule
+// just means "no wait" and is fine; ahead of the schedule a pacer has to wait or stop, and a negative
+// duration there is what a wrapped product looks like.)
 func negativeWait(s *kit.Summary, x *in, t int64, n uint64, w int64, stop, pk bool) (finding, bool) {
-	if pk || stop || w >= 0 || t < 0 || scheduleOf(x) == nil {
+	sch := scheduleOf(x)
+	if pk || stop || w >= 0 || t < 0 || sch == nil {
+		return finding{}, false
+	}
+	if !sch.ahead(n, t) {
+		s.Count(x.Pacer + ":negative_wait_while_not_ahead_accepted")
 		return finding{}, false
 	}
 	kind := x.Pacer + "_negative_wait"
@@ -35,7 +42,7 @@ func negativeWait(s *kit.Summary, x *in, t int64, n uint64, w int64, stop, pk bo
 		// beyond one hit per nanosecond (interval rounds to 0) and for schedules beyond 1e18 hits the
 		// float products are 0·Inf / Inf−Inf (NaN): not judged
 		r, _, _ := rateOf(x, t)
-		h, _ := scheduleOf(x).(linSched).Hf(t)
+		h, _ := sch.(linSched).Hf(t)
 		if !(math.Abs(r) <= 1e9) || !(math.Abs(h) < 1e18) {
 			s.Count("linear:negative_wait_outside_float_range_not_judged")
 			return finding{}, false
@@ -44,19 +51,12 @@ func negativeWait(s *kit.Summary, x *in, t int64, n uint64, w int64, stop, pk bo
 			kind = "linear_overflow_wraps"
 		}
 	}
-	return finding{kind: kind, clause: "negative_wait",
-		what:     "Pace answered with a negative wait and stop=false",
-		expected: "a wait >= 0, or stop", observed: fmt.Sprintf("Pace(%d, %d) = (%d, false)", t, n, w)}, true
-}
-
-// hitsOverflow: at hits == MaxUint64 the next count does not exist; "arithmetic overflow stops the attack".
-func hitsOverflow(s *kit.Summary, x *in, w int64, stop, pk bool) {
-	if x.Hits != math.MaxUint64 || pk || stop || scheduleOf(x) == nil || x.Elapsed < 0 {
-		return
+	if x.Pacer == "const" {
+		kind = "const_overflow_guard_off_by_one"
 	}
-	report(s, x, finding{kind: x.Pacer + "_hits_overflow_not_stopped", clause: "hits_overflow",
-		what:     "hits+1 overflows uint64 but the attack is not stopped",
-		expected: "stop", observed: fmt.Sprintf("(%d, false)", w)})
+	return finding{kind: kind, clause: "negative_wait",
+		what:     "negative wait with stop=false although the count is ahead of the schedule (a wrapped value)",
+		expected: fmt.Sprintf("a wait >= 0, or stop (schedule %s)", sch.show(t)), observed: fmt.Sprintf("Pace(%d, %d) = (%d, false)", t, n, w)}, true
 }
 
 func rateOracle(s *kit.Summary, x *in, t int64) {
@@ -78,8 +78,9 @@ func rateOracle(s *kit.Summary, x *in, t int64) {
 	}
 }
 
-// linearOverflow: wait = interval·(hits+1−H(t)) reaching 2^63 must stop the attack, not wrap
-// (a margin of 1e-9 relative keeps float noise of the oracle's own product out).
+// linearOverflow: where the first-order product interval·(hits+1−H(t)) reaches 2^63 the unchanged code
+// stops.  The text demands only that nothing WRAPS there (negativeWait judges that); a positive wait is
+// as good as a stop.  This function only records how the region is answered.
 func linearOverflow(st *streams, s *kit.Summary, x *in, w int64, stop, pk bool) {
 	sch := scheduleOf(x)
 	if sch == nil || pk || x.Elapsed < 0 || x.Hits == 0 || x.slope() < 0 {
@@ -91,58 +92,40 @@ func linearOverflow(st *streams, s *kit.Summary, x *in, w int64, stop, pk bool) 
 	if !(r > 0) || !(h >= 0) || float64(x.Hits) < math.Floor(h) {
 		return
 	}
-	interval := math.Round(1e9 / r)
-	exact := interval * (float64(x.Hits+1) - h)
-	if !(exact >= 9.223372036854775808e18*(1+1e-9)) {
-		return
+	if exact := math.Round(1e9/r) * (float64(x.Hits+1) - h); exact >= 9.223372036854775808e18*(1+1e-9) {
+		switch {
+		case stop:
+			s.Count("linear.point:overflowing_wait_stopped")
+		case w >= 0:
+			s.Count("linear.point:overflowing_wait_answered_with_a_wait")
+		default:
+			s.Count("linear.point:overflowing_wait_negative")
+		}
 	}
-	if stop {
-		s.Count("linear.point:overflowing_wait_stopped")
-		return
-	}
-	report(s, x, judged(st, x, finding{kind: "linear_overflow_wraps", clause: "wrap",
-		what:     "an overflowing wait does not stop the attack",
-		expected: fmt.Sprintf("stop (interval %.0f ns x %.3f hits to wait exceeds MaxInt64)", interval, float64(x.Hits+1)-h),
-		observed: fmt.Sprintf("(%d, false)", w)}))
 }
 
-// pointContract: see the header.  Only states the closed loop can be in (n <= S(t)+1) are judged.
+// pointContract: the lower clause at one point (constant and sine pacers): from a state the closed loop
+// can be in (n <= S(t)+1) a positive wait w prescribes the release instant t+w, at which the count n+1
+// may be at most one hit plus the nanosecond quantisation behind the schedule.  (The upper clause is
+// judged along the closed loops only: whether a state ahead of the schedule is reachable depends on
+// the pacer itself.)
 func pointContract(st *streams, s *kit.Summary, x *in, w int64, stop, pk bool) {
 	sch := scheduleOf(x)
-	if sch == nil || pk || stop || w <= 0 || x.Elapsed < 0 || x.Hits == 0 || w > math.MaxInt64-x.Elapsed {
+	if sch == nil || !sch.hasLower() || pk || stop || w <= 0 || x.Elapsed < 0 || w > math.MaxInt64-x.Elapsed {
 		return
 	}
 	t, n, tr := x.Elapsed, x.Hits, x.Elapsed+w
-	switch x.Pacer {
-	case "sine":
-		ss := sch.(sineSched)
-		if ss.m+math.Abs(ss.a) >= subNs/10 || float64(n) > ss.H(t)+1 {
-			return
-		}
-		s.Count("sine.contract:checked")
-		h := ss.H(tr)
-		if float64(n+1) > h+1+slack(h) {
-			report(s, x, finding{kind: "sine_upper", clause: "point_contract",
-				what:     "the prescribed release instant is more than one hit ahead of the schedule",
-				expected: fmt.Sprintf("%d <= S(%d)+1 = %.6f+1", n+1, tr, h), observed: fmt.Sprintf("wait %d", w)})
-		}
-		if ss.tooFarBehind(n+1, tr) {
-			report(s, x, finding{kind: "sine_lower", clause: "point_contract",
-				what:     "the prescribed release instant leaves the count more than one hit behind the schedule",
-				expected: fmt.Sprintf("S(%d) - %d <= 1 + quantisation (S = %.6f)", tr, n+1, h), observed: fmt.Sprintf("wait %d", w)})
-		}
-	case "linear":
-		l := sch.(linSched)
-		h0, _ := l.Hf(t)
-		if l.a < 0 || (l.a*float64(tr)/1e9+l.b)/1e9 >= subNs/10 || float64(n) > h0+1 {
-			return
-		}
-		s.Count("linear.contract:checked")
-		if l.gt(float64(n+1), n+1, tr, 1, 1) {
-			report(s, x, judged(st, x, finding{kind: "linear_upper", clause: "point_contract",
-				what:     "the prescribed release instant is more than one hit ahead of the schedule (slope >= 0)",
-				expected: fmt.Sprintf("%d <= S(%d)+1 = %s+1", n+1, tr, l.show(tr)), observed: fmt.Sprintf("wait %d", w)}))
-		}
+	if n == math.MaxUint64 || sch.tooFarAhead(n, t) {
+		return
+	}
+	if ss, ok := sch.(sineSched); ok && ss.m+math.Abs(ss.a) >= subNs/10 {
+		return
+	}
+	s.Count(x.Pacer + ".contract:checked")
+	if sch.tooFarBehind(n+1, tr) {
+		report(s, x, finding{kind: x.Pacer + "_lower", clause: "point_contract",
+			what:     "the prescribed release instant leaves the count more than one hit behind the schedule",
+			expected: fmt.Sprintf("S(%d) - %d <= 1 + quantisation (S = %s)", tr, n+1, sch.show(tr)), observed: fmt.Sprintf("wait %d", w)})
 	}
 }
 
@@ -164,7 +147,7 @@ func (r *stampRT) RoundTrip(*http.Request) (*http.Response, error) {
 // e2e runs x.pacer() through (*Attacker).Attack for x.DurationNs of real time.  Every hit enters the
 // transport after the loop slept the wait the pacer asked for, and the attack began no earlier than
 // T0, so `entry_k − T0` is a LOWER bound of the elapsed time at which hit k was released; with a
-// non-decreasing schedule the statement gives k <= S(entry_k − T0) + 1 (constant pacer: k <= S).
+// non-decreasing schedule the statement gives k <= S(entry_k − T0) + 1.
 func e2e(s *kit.Summary, x *in) {
 	rt := &stampRT{}
 	atk := vegeta.NewAttacker(vegeta.Workers(2), vegeta.Client(&http.Client{Transport: rt}))
@@ -184,8 +167,8 @@ func e2e(s *kit.Summary, x *in) {
 			}
 		case <-timeout:
 			atk.Stop()
-			report(s, x, finding{kind: "attack_loop_does_not_end", clause: "e2e", what: "the attack did not end 20s after its duration",
-				expected: "results channel closed", observed: fmt.Sprintf("%d results so far", nres)})
+			// that the attack ends is the sibling property C04's clause: no verdict from this channel
+			s.Skipped["e2e: the attack did not end within 20s after its duration (C04's clause), run not judged"]++
 			return
 		}
 	}
@@ -197,11 +180,8 @@ func e2e(s *kit.Summary, x *in) {
 	s.Case(fmt.Sprintf("e2e %s %s %d", x.Pacer, x.params(), x.DurationNs), len(at) >= 5)
 	stopping := (x.Pacer == "const" || x.Pacer == "linear") && x.Freq != 0 && x.Per != 0 && (x.Freq < 0 || x.Per < 0)
 	if stopping {
-		s.Count("e2e:stopping_pacer")
-		if len(at) != 0 {
-			report(s, x, finding{kind: "attack_loop_ignores_stop", clause: "e2e", what: "hits were released although the pacer says stop",
-				expected: "0 hits", observed: fmt.Sprintf("%d hits", len(at))})
-		}
+		// "when the pacer says stop no further hit is released" is C04's clause; here it is only recorded
+		s.Count(fmt.Sprintf("e2e:stopping_pacer_hits=%d", len(at)))
 		return
 	}
 	if sch == nil {
@@ -209,13 +189,7 @@ func e2e(s *kit.Summary, x *in) {
 	}
 	for i, a := range at {
 		k, e := uint64(i+1), int64(a.Sub(t0))
-		bad := false
-		if c, ok := sch.(constSched); ok {
-			bad = mul128(k, c.per).cmp(mul128(c.freq, uint64(e))) > 0 // k·per > freq·e
-		} else {
-			bad = sch.tooFarAhead(k, e)
-		}
-		if bad {
+		if sch.tooFarAhead(k, e) {
 			report(s, x, finding{kind: "attack_loop_ahead_of_pacer", clause: "e2e",
 				what:     "the real attack loop released a hit before the pacer's schedule allows it",
 				expected: fmt.Sprintf("hit %d not before the schedule reaches it (S(%d ns) = %s)", k, e, sch.show(e)),
